@@ -5,4 +5,6 @@ V2 == ("m1" :> "n1") @@ ("m2" :> "g2")
 F2s == ("m1" :> "name") @@ ("m2" :> "name")
 F3 == ("m1" :> "name") @@ ("m2" :> "tag") @@ ("m3" :> "name")
 V3 == ("m1" :> "n1") @@ ("m2" :> "g2") @@ ("m3" :> "n3")
+F2n == ("m1" :> "name") @@ ("m2" :> "none")
+F3n == ("m1" :> "name") @@ ("m2" :> "none") @@ ("m3" :> "tag")
 ====
